@@ -9,6 +9,7 @@ pub mod c05;
 pub mod c06;
 #[cfg(feature = "net")]
 pub mod c07;
+pub mod c09;
 #[cfg(feature = "net")]
 pub mod c12;
 pub mod c13;
@@ -28,6 +29,7 @@ pub fn dispatch(a: &Args) -> Option<Report> {
         "C06" => c06::run(a),
         #[cfg(feature = "net")]
         "C07" | "C08" => c07::run(a),
+        "C09" => c09::run(a),
         #[cfg(feature = "net")]
         "C12" => c12::run(a),
         "C13" => c13::run(a),
